@@ -88,6 +88,7 @@ pzgstrf_thread_init(SuperMatrix *A, SuperMatrix *L, SuperMatrix *U,
     int_t  *ispruned;/* flag to indicate whether column j is pruned */
     int_t   nzlumax;
     pxgstrf_relax_t *pxgstrf_relax;
+    extern ExpHeader *zexpanders;
     
     nprocs     = options->nprocs;
     perm_c     = options->perm_c;
@@ -146,7 +147,20 @@ pzgstrf_thread_init(SuperMatrix *A, SuperMatrix *L, SuperMatrix *U,
 
     /* Allocate global storage common to all the factor routines */
     *info = pzgstrf_MemInit(n, Astore->nnz, options, L, U, &Glu);
-    if ( *info ) return NULL;
+    if ( *info ) {
+	/* Workspace query (lwork = -1) or allocation failure: no factorization
+	   will take place, release what was set up for it. */
+	ParallelFinalize(pxgstrf_shared);
+	SUPERLU_FREE(inv_perm_r);
+	SUPERLU_FREE(inv_perm_c);
+	SUPERLU_FREE(xprune);
+	SUPERLU_FREE(ispruned);
+	if ( zexpanders ) { /* set up by pzgstrf_MemInit() */
+	    SUPERLU_FREE(zexpanders);
+	    zexpanders = 0;
+	}
+	return NULL;
+    }
 
     /* Prepare arguments to all threads. */
     pzgstrf_threadarg = (pzgstrf_threadarg_t *) 
